@@ -238,7 +238,9 @@ def mon (st : St) (op : List String) (outs : List (List String)) : St × List St
     let c3 := match st6.enoughSince with
       | some tr =>
         let need := 4 + (2 * st6.lagAtRec) / (max st6.spareMin 1 * st6.cycle)
-        if !st6.enough ∧ !ended ∧ st6.now - tr ≥ need * st6.cycle ∧ lag > cycleWorth + slack then
+        -- a carried shortfall at or under the adjustment threshold is never requested again (`adjustHashrate` does nothing inside
+        -- ±AdjustmentThresholdGHS): that much may stay owed for good — DESIGN.md §6.3
+        if !st6.enough ∧ !ended ∧ st6.now - tr ≥ need * st6.cycle ∧ lag > cycleWorth + slack + PRV.Gen.C09.thresholdAdjust * st6.cycle then
           [s!"PROP what earlier cycles fell short is not made up: {lag} GHs behind the contracted rate, more than one cycle's worth ({cycleWorth}), although enough hashrate ({st6.spareMin} GH/s to spare at least) has been connected for {st6.now - tr} s ({need} cycles are {need * st6.cycle} s); the contract was {st6.lagAtRec} GHs behind when it came"] else []
       | none => []
     let c2 := if st6.enough ∧ el > st6.cycle ∧ lag > cycleWorth + slack then
